@@ -49,3 +49,39 @@ func init() {
 	}
 	intrinsics["(*"+gx+".GExpect).Close"] = func(fr *frame, args []value) value { return iface{} }
 }
+
+// os/exec: commands are recorded, never run.
+type vcmd struct{ args []string }
+
+func (c *vcmd) String() string {
+	s := ""
+	for i, a := range c.args {
+		if i > 0 {
+			s += " "
+		}
+		s += a
+	}
+	return s
+}
+
+func init() {
+	intrinsics["os/exec.Command"] = func(fr *frame, args []value) value {
+		l := []string{fr.concreteString(args[0])}
+		for _, a := range args[1].([]value) {
+			l = append(l, toString(a))
+		}
+		return native{&vcmd{l}}
+	}
+	intrinsics["(*os/exec.Cmd).Run"] = func(fr *frame, args []value) value {
+		e := fr.i.ctx.env
+		c := args[0].(native).v.(*vcmd)
+		e.events = append(e.events, sinkEvent{Kind: "exec", Data: c.String()})
+		if h, ok := e.hooks["exec.run"]; ok {
+			return fr.optErr(call(fr.i, fr, 0, h, []value{c.String()}))
+		}
+		return iface{}
+	}
+	intrinsics["(*os/exec.Cmd).String"] = func(fr *frame, args []value) value {
+		return args[0].(native).v.(*vcmd).String()
+	}
+}
